@@ -322,7 +322,7 @@ func TestHaltingHistories(t *testing.T) {
 }
 
 func TestReplay(t *testing.T) {
-	if ev.ReplayPath() == "" {
+	if ev.ReplayPath() == "" || ev.ReplayPart() == "polling-sessions" {
 		t.Skip()
 	}
 	var c Case
